@@ -34,6 +34,9 @@ def run(an: Analysis, rep):
     from .common import SharedRules as _SR8
     rep.run(_c03k.r033, an, _SR8(rep, "R08.T", "the encoder finds table entries by the key equality is defined by (shared with C03's R03.3): 'equal CodeData encode to identical code objects' - a table "
                                                "keyed by id() encodes a value and its own JSON round trip differently"), _c03k.table_class(an))
+    from . import json_fold as _jf8
+    rep.run(_jf8.fold_rule, an, _SR8(rep, "R08.J", "what from_json_data builds, folded over witness documents, is the data the documents describe - tuples and names, not the lists and tagged objects "
+                                                   "of the document (shared with C07's R07.W): 'every JSON-loaded CodeData is hashable'"))
     from . import c12
     rep.run(c12.arg_mutation_rule, an, rep, "R08.M", ["normalize", "to_code", "to_json", "from_code"])
 
@@ -46,12 +49,14 @@ def r081(an, rep):
                 "@dataclass(frozen=True)" if ci.dc_args.get("frozen") is True else f"class is not a frozen data class ({ci.dc_args}): attributes can be reassigned", nontrivial=False)
         eq_off = ci.dc_args.get("eq") is False
         rep.add("R08.1", f"{ci.qual}::eq", not eq_off, w, "eq disabled: identity comparison" if eq_off else "eq enabled", nontrivial=False)
-        bad = [m for m in ("__setattr__", "__delattr__", "__getattribute__") if an.interp("normalize")[0]._find_method(ci, m)]
+        # (__new__ / __init__ written by hand: construction may hand out an instance that already exists - an interning table - and the generated
+        # __init__ of a frozen class then writes the new field values into it through object.__setattr__: a value some other CodeData holds changes)
+        bad = [m for m in ("__setattr__", "__delattr__", "__getattribute__", "__new__", "__init__") if an.interp("normalize")[0]._find_method(ci, m)]
         uh = ci.dc_args.get("unsafe_hash")
         hash_none = any(isinstance(st, ast.Assign) and any(isinstance(t, ast.Name) and t.id == "__hash__" for t in st.targets)
                         for st in ci.node.body)
         rep.add("R08.1", f"{ci.qual}::no attribute hooks", not bad and not hash_none, w,
-                f"defines {bad or '__hash__ = ...'}: immutability / hashability of the value can be bypassed" if (bad or hash_none) else "no __setattr__/__delattr__ override, __hash__ not disabled", nontrivial=False)
+                f"defines {bad or '__hash__ = ...'}: immutability / hashability of the value can be bypassed" if (bad or hash_none) else "no __setattr__/__delattr__/__new__/__init__ written by hand, __hash__ not disabled", nontrivial=False)
         for f in ci.fields:
             fl = getattr(f, "flags", {})
             excluded = [k for k in ("compare", "hash", "init") if k in fl and fl[k] is not True]
